@@ -86,6 +86,24 @@ theorem cover_spec (es0 : List (List String)) (u : List String) (c : List (List 
           · exact ⟨p, hp, subsetS_iff.mp h1, h2⟩
       · simp [hck] at hb
 
+/-- **C06, the cover step, in gate semantics**: the gate `process_missing_and_gates` builds from a returned cover —
+`OR` over the cover members, each a leaf or the `AND` of its events — admits every non-empty observed set below the
+universe that the cover was computed for; with `cover_spec`, whatever `max` chose. -/
+theorem cover_sound (es0 : List (List String)) (u : List String) (c : List (List String))
+    (h : some c ∈ weightedCover es0 u) (e : List String) (he : e ∈ es0) (hu : sameS e u = false) (hne : e ≠ []) :
+    admits (rebuilt c) e = true :=
+  rebuilt_admits c e hne ((cover_spec es0 u c h).2.2.2 e he hu)
+
+/-- … and the universe itself (the observation that all events occur together) is admitted too -/
+theorem cover_sound_universe (es0 : List (List String)) (u : List String) (c : List (List String))
+    (h : some c ∈ weightedCover es0 u) (hne : u ≠ []) (hsub : ∀ p ∈ es0, ∀ x ∈ p, x ∈ u) :
+    admits (rebuilt c) u = true := by
+  obtain ⟨h1, _, h3, _⟩ := cover_spec es0 u c h
+  apply rebuilt_admits c u hne
+  intro x hx
+  obtain ⟨p, hp, hxp⟩ := h3 x hx
+  exact ⟨p, hp, hsub p (h1 p hp), hxp⟩
+
 /-- non-vacuity: the family of `OR(AND(a,b), c)` has the cover `{c}, {a,b}` under every choice; with the extra
 observation `{a}` every choice ends in `None` (the greedy members overlap) -/
 example :
